@@ -36,7 +36,7 @@ EXHAUSTIVE = {"what": "all conversion sequences of length 1..3 over 5 formats fo
 
 
 def streams(ctx):
-    return [("core", ctx.scale(200, 1500)), ("probe", ctx.scale(80, 500))]
+    return [("core", ctx.scale(200, 1500)), ("probe", ctx.scale(80, 500)), ("partial", ctx.scale(200, 2000))]
 
 
 def gen_case(ctx, stream, idx):
@@ -44,6 +44,17 @@ def gen_case(ctx, stream, idx):
     if stream == "core" and idx % 6 == 5:
         return irgen.similar_ir(r, type_kinds=("int", "float", "str", "bool"), default_kinds=("int", "float", "str", "bool"),
                                 all_defaults=True, with_return=False)
+    if stream == "partial":
+        # partially documented interfaces: one or two entries carry a description, two or more do not (what a parser
+        # appends from the signature after the documented ones must come in the signature's order)
+        ir = irgen.rand_ir(r, nparams=r.randint(3, 6), type_kinds=("int", "float", "str", "bool"),
+                           default_kinds=("int", "negint", "float", "bool", "str"), all_defaults=True, with_return=False)
+        names = list(ir["params"])
+        keep = set(r.sample(names, r.randint(1, max(1, len(names) - 2))))
+        for nm in names:
+            if nm not in keep:
+                ir["params"][nm]["doc"] = ""
+        return ir
     if stream == "core":
         # (every 16th interface has no parameter at all: an empty signature is legal and every format can say it)
         # (str defaults include delimiter characters, a lone quote character, a directive: kind strodd)
@@ -152,7 +163,44 @@ def explore(P, stream, idx, start, seq, cur, depth, max_depth, start_shape, expe
             P.monitor("sequence.len3.complete")
 
 
+def run_partial(ctx, P, stream, idx):
+    """partially documented interfaces through the formats whose parser merges a docstring with code (class, pydantic,
+    function), one and two hops: the names come back in the signature's order. The unchanged tree puts the documented
+    entries first (recorded finding, keyed to exactly that order); any *other* order is a new deviation."""
+    start = gen_case(ctx, stream, idx)
+    names = list(start["params"])
+    documented = [n for n in names if start["params"][n].get("doc")]
+    defect_order = documented + [n for n in names if n not in documented]
+    for seq in (("class",), ("pydantic",), ("function",), ("class", "function"), ("function", "class"), ("function", "pydantic")):
+        cur = start
+        P.case({"ir": start, "seq": seq}, klass="partial/len%d" % len(seq), sample={"sequence": seq, "start": start})
+        try:
+            for fmt in seq:
+                src, cur = one_hop(cur, fmt)
+                P.monitor("hop.observed")
+        except Exception as e:
+            P.deviation("chain.%s.hop.raises.%s|partial" % (seq[-1], type(e).__name__), "sequence %s raises %r" % ("->".join(seq), e),
+                        {"stream": stream, "idx": idx, "sequence": seq, "start": start})
+            continue
+        got = list(cur["params"])
+        P.monitor("partial.order.compared")
+        if got == names:
+            continue
+        w = {"stream": stream, "idx": idx, "sequence": seq, "start": start, "emitted": src, "got": got}
+        if got == defect_order:
+            P.deviation("parse.partially-documented-entries-come-first|chain.%s.names.order|partial" % seq[-1],
+                        "after %s: documented entries first: expected %r got %r" % ("->".join(seq), names, got), w)
+        elif sorted(got) == sorted(names):
+            P.deviation("chain.%s.names.order-arbitrary|partial" % seq[-1],
+                        "after %s: order is neither the signature's nor documented-first: expected %r got %r" % (
+                            "->".join(seq), names, got), w)
+        else:
+            P.deviation("chain.%s.names.differ|partial" % seq[-1], "after %s: names expected %r got %r" % ("->".join(seq), names, got), w)
+
+
 def run_case(ctx, P, stream, idx):
+    if stream == "partial":
+        return run_partial(ctx, P, stream, idx)
     start = gen_case(ctx, stream, idx)
     start_shape = [dk for _, dk in irgen.shape(start)["params"]]
     explore(P, stream, idx, start, (), start, 0, 3, start_shape)
